@@ -52,6 +52,9 @@ type WorldCfg struct {
 	SharedKeys   bool // allow two trip ids that map to one journal key
 	ClockFaults  int  // out of 16 per tick
 	ShuffleEnts  bool
+	LongLines    bool // lines of up to 45 stops (slice growth inside the journal)
+	DateVariety  bool // trips start on different service days
+	RepeatDaily  bool // the same trip id (and time of day) runs on two different service days, as NYCT ids do
 }
 
 func DrawWorldCfg(t *sim.T) WorldCfg {
@@ -75,6 +78,12 @@ func DrawWorldCfg(t *sim.T) WorldCfg {
 	if t.Chance(1, 4) {
 		c.ClockFaults = t.Range(1, 4)
 	}
+	if t.Chance(1, 12) {
+		c.Trips = t.Range(9, 30) // many trips: UID ordering, map growth
+	}
+	c.LongLines = t.Chance(1, 10)
+	c.DateVariety = t.Chance(1, 4)
+	c.RepeatDaily = t.Chance(1, 6)
 	return c
 }
 
@@ -126,6 +135,9 @@ func NewWorld(t *sim.T, cfg WorldCfg) *World {
 		r := routePool[(off+i)%len(routePool)]
 		w.routes = append(w.routes, r)
 		n := t.Range(4, 12)
+		if cfg.LongLines && r != "M" {
+			n = t.Range(13, 45)
+		}
 		var line []string
 		if r == "M" {
 			// the stations the nycttrips extension rewrites, plus neighbours
@@ -142,6 +154,13 @@ func NewWorld(t *sim.T, cfg WorldCfg) *World {
 		w.trains = append(w.trains, w.newTrain(i))
 	}
 	return w
+}
+
+func (w *World) startDate() string {
+	if !w.Cfg.DateVariety {
+		return "20240115"
+	}
+	return []string{"20240114", "20240115", "20240116", "20231231"}[w.t.Choose(4)]
 }
 
 func pad1(r string) string {
@@ -172,7 +191,7 @@ func (w *World) newTrain(i int) *train {
 		id:        id,
 		route:     r,
 		dir:       dir,
-		startDate: "20240115",
+		startDate: w.startDate(),
 		startTime: fmt.Sprintf("%02d:%02d:%02d", secs/3600, (secs/60)%60, secs%60),
 		trainID:   fmt.Sprintf("%s%d %02d%02d+ X%d/Y%d", r, i, secs/3600, (secs/60)%60, i, t.Choose(3)),
 		assigned:  !t.Chance(1, 3),
@@ -182,6 +201,19 @@ func (w *World) newTrain(i int) *train {
 	}
 	if w.Cfg.SharedKeys && i > 0 && id[6:] == w.trains[0].id[6:] {
 		tr.startTime = w.trains[0].startTime
+	}
+	if w.Cfg.RepeatDaily && i > 0 && t.Chance(1, 2) {
+		// the same trip id and time of day as an earlier train, on another service day
+		o := w.trains[t.Choose(i)]
+		tr.id, tr.route, tr.dir, tr.startTime = o.id, o.route, o.dir, o.startTime
+		r, dir = o.route, o.dir
+		for _, d := range []string{"20240116", "20240114", "20240117"} {
+			if d != o.startDate {
+				tr.startDate = d
+				break
+			}
+		}
+		t.Probe("world-same-id-other-day")
 	}
 	if t.Chance(1, 4) {
 		tr.deadTick = tr.bornTick + t.Range(1, 12)
@@ -327,9 +359,14 @@ func (w *World) Tick() *gtfsrt.FeedMessage {
 			t.Fault("clock-jump-forward")
 		}
 	}
+	noTimestamp := w.Cfg.ClockFaults > 0 && t.Chance(1, 24)
 	w.tick++
 	msg := &gtfsrt.FeedMessage{
 		Header: &gtfsrt.FeedHeader{GtfsRealtimeVersion: ps("1.0"), Timestamp: pu64(uint64(w.pubNow))},
+	}
+	if noTimestamp {
+		msg.Header.Timestamp = nil
+		t.Fault("clock-missing-timestamp")
 	}
 	if w.Cfg.Nyct && t.Chance(1, 2) {
 		proto.SetExtension(msg.Header, gtfsrt.E_NyctFeedHeader, &gtfsrt.NyctFeedHeader{NyctSubwayVersion: ps("1.0")})
